@@ -634,6 +634,9 @@ var cfLines = []string{
 	"match{}", "match{status,2xx}", "match{status,200|header,Content-Type,text/*}", "match{header,Content-Type,text/*|header,Content-Type,*json*}",
 	"match{header,X-A,b|header,!X-A}", "match{header,!x-a|header,X-A,b}", "match{header,!X-A|header,x-a,b|status,404}", "match{bogus}", "match{status}",
 	"match{header,Content-Type,a,b}", "match,header,A,b,c", "match,status,-5", "gzip{}", "minimum_length,5,match,status,200",
+	"match,header,A,b,skipped,C,d", "match,header,A,b,skipped,!C", "match,header,A,b,skipped,C", "match{header,Content-Type,text/*,x,Content-Type,*json*}",
+	"match,header,a/b,v", "match,header,a=b,v", "match,header,!a/b", "match,header,X_Y.z,v", "match,status,+200", "match,status,-2xx", "match,status,-xx",
+	"match,status,0,1", "match,status,99999999999", "gzip,5{level,9}", "zstd{}", "zstd,best{x}", "minimum_length,7{}", "br{}",
 }
 
 var cfGoodLines = []string{
